@@ -139,11 +139,21 @@ def result_vector(ctx, sc, policy, workers, sched_seed, objects=None):
 def gen_windowed_scenario(rng):
     """A continuum large and sparse enough for the fast mode to record a finite window, with overlaps so that windowed
     and exact alignments of the samples can differ."""
-    n, k = rng.choice([(4, 14), (4, 16), (3, 40), (5, 12)])
+    n, k = rng.choice([(4, 14), (4, 14), (4, 16), (5, 12)])
     cspec = cases.gen_continuum(rng, n_annot=n, sizes=[k] * n, family=rng.choice(["grid", "grid", "mixeddur"]), labels=cases.LABELS_SMALL)
     return {"continuum": cspec, "dissim": {"kind": "combined", "alpha": 1.0, "beta": 1.0, "delta": 1.0, "pos": None, "cat": None},
             "ground_truth": None, "ground_truth_as": "list", "sampler": rng.choice(["statistical", "shuffle_int"]), "mode": "fast",
-            "n_samples": rng.choice([2, 3, 4]), "precision": None, "np_seed": rng.randrange(2 ** 31)}
+            "n_samples": rng.choice([2, 2, 3]), "precision": None, "np_seed": rng.randrange(2 ** 31)}
+
+
+def gen_identical_scenario(rng):
+    """All annotators made exactly the same annotations (observed disorder exactly 0)."""
+    base = cases.gen_continuum(rng, n_annot=1, max_units=5, allow_empty=False, labels=cases.LABELS_SMALL, family="grid", names=["x"])
+    n = rng.randint(2, 4)
+    cspec = {"ann": {a: [list(u) for u in base["ann"]["x"]] for a in cases.ANNOTATOR_NAMES[:n]}, "family": "identical-annotators"}
+    return {"continuum": cspec, "dissim": {"kind": "combined", "alpha": 1.0, "beta": 1.0, "delta": 1.0, "pos": None, "cat": None},
+            "ground_truth": None, "ground_truth_as": "list", "sampler": rng.choice(["statistical", "shuffle_float"]),
+            "mode": rng.choice(["exact", "soft"]), "n_samples": rng.choice([6, 12, 20]), "precision": None, "np_seed": rng.randrange(2 ** 31)}
 
 
 def gen_scenario(rng, dspecs):
@@ -242,9 +252,9 @@ def run(ctx):
     for i in range(ctx.scale(14, 160)):
         if ctx.out_of_time():
             break
-        sc = gen_windowed_scenario(rng) if i % 5 == 4 else gen_scenario(rng, dspecs)
-        ctx.observe("scenario_kind", "fast-windowed-size" if i % 5 == 4 else "small")
-        k = ctx.scale(5, 8) if i % 5 != 4 else 4
+        sc = gen_windowed_scenario(rng) if i % 5 == 4 else (gen_identical_scenario(rng) if i % 5 == 2 else gen_scenario(rng, dspecs))
+        ctx.observe("scenario_kind", "fast-windowed-size" if i % 5 == 4 else ("identical-annotators" if i % 5 == 2 else "small"))
+        k = ctx.scale(5, 8) if i % 5 != 4 else ctx.scale(3, 5)
         chosen = rng.sample(POLICIES, k)
         case = {"scenario": sc, "schedules": [[p, w, rng.randrange(10 ** 6)] for p, w in chosen]}
         ctx.begin_case(case)
